@@ -1,6 +1,8 @@
 import WhVerif.Lemmas.C05
 import WhVerif.Lemmas.C05Tables
 import WhVerif.Lemmas.C03
+import WhVerif.Lemmas.C05SolverCol
+import WhVerif.Lemmas.C05SolverPed
 /-!
 # C05 — pedigree phasing is Mendelian-consistent and ordered paternal|maternal
 
@@ -199,5 +201,100 @@ theorem homozygous_parent_phased_without_reads_partial
 /-- non-vacuity of the column part: father 0/0, mother 0/1, child 0/1, no reads, transmission value 0: the child is
 0|1 (and, given the transmission value, the mother's haplotypes are determined as well) -/
 example : getAlleles ⟨3, [(0, 1, 2)]⟩ 0 [[0, 0], [1, 0], [1, 0]] [] = some [(0, 0), (0, 1), (0, 1)] := by decide
+
+/-! ## the same, end to end on the SOLVER model (C01's `PedigreeDPTable`): no assumption about the super reads
+
+`Spec/C05Solver.lean` defines the super reads as `get_super_reads` computes them from the back-traced witness
+`(β, τ)` of the C01 model: the entry of column `c` is `get_alleles` for the bipartition of the reads active in `c`
+and the transmission value `τ_c`.  The instance `I` is the solver's input (`WhVerif.C01.Inst`): any reads (none at
+the column included), any recombination costs, any member order; the genotype constraints are the trusted ones
+(`none` = incompatible).  "No Mendelian conflict" is the hypothesis that the solver returned a witness at all
+(`WhVerif.Props.C01.infeasible_iff`: it raises iff some column has no admissible assignment for any
+bipartition/transmission vector; for trios/quartets that is `no_conflict_iff_feasible_trio/_quartet`). -/
+open WhVerif.C05.Solver
+
+/-- structure of the partition map of the solver model, any pedigree (`PedOK`: members in range, one trio per child,
+acyclic), any transmission value: the child's haplotype 0 is the father's haplotype selected by bit `2k`, its
+haplotype 1 the mother's selected by bit `2k+1` (bit value 1 = the parent's haplotype 0) -/
+theorem solver_child_partitions (I : WhVerif.C01.Inst) (hok : PedOK I) (t k f m ch : Nat)
+    (htr : I.trios[k]? = some (f, m, ch)) :
+    WhVerif.C01.h2p I t ch 0 =
+      (if WhVerif.C01.bitOf t (2 * k) = 1 then WhVerif.C01.h2p I t f 0 else WhVerif.C01.h2p I t f 1) ∧
+    WhVerif.C01.h2p I t ch 1 =
+      (if WhVerif.C01.bitOf t (2 * k + 1) = 1 then WhVerif.C01.h2p I t m 0 else WhVerif.C01.h2p I t m 1) :=
+  trio_partitions I hok t k f m ch htr
+
+/-- **FULL**: a variant (column `col`) at which a child is heterozygous and one of its parents homozygous gets, in
+the super reads the solver returns, two definite alleles for the child (no `EQUAL_SCORES`), different, the first an
+allele of the father, the second an allele of the mother (equal to the homozygous parent's allele on that side) —
+whatever reads cover the column (none included), whatever the recombination costs and the rest of the instance are;
+and the writer phases the child's call `a0|a1` there (the position is accessible through `homozygous_positions`
+and therefore has a component).  Every cost-optimal admissible allele assignment of the column agrees with the
+reported alleles. -/
+theorem homozygous_parent_phased_without_reads
+    (I : WhVerif.C01.Inst) (hwf : WhVerif.C01.WF I) (hok : PedOK I)
+    (β : List Bool) (τ : List Nat) (hw : WhVerif.C01.witness I = some (β, τ))
+    (col k f m ch : Nat) (hcol : col < I.ncols) (htr : I.trios[k]? = some (f, m, ch))
+    (hhet : HetAt I ch col) (hhom : (∃ x, HomAt I f col x) ∨ (∃ y, HomAt I m col y))
+    -- genomic positions of the columns
+    (positions : List Nat) (hlen : positions.length = I.ncols) (hnd : positions.Nodup)
+    -- the position: retained, homozygous in some member, pedigree mode with genetic haplotyping
+    (retainedPos readPos homPos acc : List Nat) (famSize : Nat)
+    (hacc : accessiblePositions retainedPos readPos homPos famSize true = some acc)
+    (hfam : famSize > 1) (hpos : positions.getD col 0 ∈ homPos)
+    -- components keyed by the accessible positions (C03)
+    (phased : List Nat) (hph : ∀ p, p ∈ acc → p ∈ phased)
+    (reads : List WhVerif.C03.Read) (master : Option (List Nat)) (het : Option WhVerif.C03.HetMap)
+    (comps : List (Nat × Nat)) (hcomps : WhVerif.C03.findComponents phased reads master het = .ok comps) :
+    ∃ sr ps a0 a1, solverSuperReads I positions ch = some sr ∧
+      writerPhase comps sr true (positions.getD col 0) = some (ps, a0, a1) ∧
+      a0 ≤ 1 ∧ a1 ≤ 1 ∧ a0 ≠ a1 ∧ HasAllele I f col a0 ∧ HasAllele I m col a1 ∧
+      (∀ x, HomAt I f col x → a0 = x) ∧ (∀ y, HomAt I m col y → a1 = y) ∧
+      (∀ ag, WhVerif.C01.IsOptAssign I col (WhVerif.C01.restrict β (I.activeAt col)) (τ.getD col 0) ag →
+        WhVerif.C01.bitOf ag.1 (WhVerif.C01.h2p I (τ.getD col 0) ch 0) = a0 ∧
+        WhVerif.C01.bitOf ag.1 (WhVerif.C01.h2p I (τ.getD col 0) ch 1) = a1) := by
+  obtain ⟨sr, L, hsr, hL, hlook⟩ := solverSuperReads_lookup I hwf β τ hw positions hlen hnd ch col hcol
+  obtain ⟨h0, h1, hne, hf, hm, hxf, hym, hopt⟩ :=
+    child_entry I hok col _ (τ.getD col 0) k f m ch htr hhet hhom L hL
+  simp only [reported_zero, reported_one] at h0 h1 hne hf hm hxf hym hopt
+  -- accessible, hence it has a component
+  have hpacc : positions.getD col 0 ∈ acc :=
+    ((accessible_spec hacc).2 _).mpr (Or.inr ⟨⟨hfam, rfl⟩, hpos⟩)
+  obtain ⟨rep, hrep, _⟩ := WhVerif.C03.L.findComponents_rep phased reads master het comps hcomps
+  have hlk : comps.lookup (positions.getD col 0) = some (rep (positions.getD col 0)) := by
+    have := hrep (positions.getD col 0)
+    unfold WhVerif.C03.compOf at this
+    rw [this, if_pos (hph _ hpacc)]
+  exact ⟨sr, rep (positions.getD col 0) + 1, (L.getD ch (0, 0)).1, (L.getD ch (0, 0)).2, hsr,
+    writerPhase_of hlk hlook h0 h1, h0, h1, hne, hf, hm, hxf, hym, hopt⟩
+
+/-- non-vacuity: a trio with the CHILD listed first (father = individual 1, mother = 2), two columns; column 1 is
+covered by NO read, the father is 1/1 there, mother and child 0/1.  All hypotheses hold, and the solver's super
+reads of the child are `0|1` at position 100 (from its reads) and `1|0` at position 200 (from the genotypes alone). -/
+def exSolver : WhVerif.C01.Inst :=
+  { ncols := 2
+    reads := [ { ind := 0, first := 0, last := 0, entries := [(0, 1, 7)] },
+               { ind := 2, first := 0, last := 0, entries := [(0, 0, 4)] } ]
+    nind := 3
+    trios := [(1, 2, 0)]
+    geno := [ [[none, some 0, none], [none, some 0, none]],
+              [[none, some 0, none], [none, none, some 0]],
+              [[none, some 0, none], [none, some 0, none]] ]
+    recomb := [0, 5] }
+
+example : WhVerif.C01.WF exSolver ∧ PedOK exSolver ∧ (WhVerif.C01.witness exSolver).isSome = true ∧
+    HetAt exSolver 0 1 ∧ HomAt exSolver 1 1 1 ∧ exSolver.activeAt 1 = [] ∧
+    solverSuperReads exSolver [100, 200] 0 = some [(100, 0, 1), (200, 1, 0)] := by
+  refine ⟨⟨?_⟩, pedOK_trio exSolver 1 2 0 rfl (by decide) (by decide) (by decide) (by decide) (by decide),
+    by decide +kernel, ⟨by decide, by decide⟩, ⟨by decide, ?_⟩, by decide, by decide +kernel⟩
+  · intro r1 r2 h1 h2
+    have hall : ∀ r2, r2 < 2 → ∀ r1, r1 ≤ r2 → (exSolver.read r1).first ≤ (exSolver.read r2).first := by decide
+    exact hall r2 h2 r1 h1
+  · intro j hj
+    match j with
+    | 0 => rfl
+    | 1 => rfl
+    | 2 => exact absurd rfl hj
+    | n + 3 => rfl
 
 end WhVerif.Props.C05
